@@ -1525,6 +1525,14 @@ func (sh *Shell) dispatch(name string, argv []Str) {
 		// external command
 		call := ExtCall{Argv: argv, InSub: sh.inSub > 0}
 		sh.Ext = append(sh.Ext, call)
+		if sh.Stub != nil && !strings.Contains(name, "/") && !isSystemProgram(name) {
+			// a bare name is searched in PATH (/usr/bin:/bin): the stubbed programs of a harness live in the working
+			// directory and are reachable only through a path (./probe), never by a bare name
+			sh.Err = append(sh.Err, gosym.Conc(name+": command not found\n"))
+			sh.Events = append(sh.Events, "command-not-found:"+name)
+			sh.Status = int64(127)
+			return
+		}
 		if sh.Stub == nil {
 			if isSystemProgram(name) {
 				// a program the real shell would find and run (mv, rm, tail, ...): its effect is outside the model
@@ -1584,7 +1592,10 @@ func (sh *Shell) runPipeline(c *Cmd) {
 		sh.Ext = append(sh.Ext, ExtCall{Argv: argv, Stdin: input, InSub: sh.inSub > 0})
 		var out Str
 		var st gosym.Value = int64(127)
-		if sh.Stub != nil {
+		if sh.Stub != nil && !strings.Contains(name, "/") && !isSystemProgram(name) {
+			sh.Err = append(sh.Err, gosym.Conc(name+": command not found\n"))
+			out, st = Str{}, int64(127)
+		} else if sh.Stub != nil {
 			out, st = sh.Stub(sh, argv, input)
 		} else {
 			if isSystemProgram(name) {
